@@ -60,3 +60,49 @@ def run(pid, repo, work):
         results = list(ex.map(lambda m: _one(m, pid, repo, work), cat))
     killed = sum(1 for r in results if r["status"].startswith("killed"))
     return dict(total=len(results), killed=killed, results=results)
+
+
+def run_seeded(pid, repo, work):
+    """Thorough tier, second self-test: every change recorded under seeded/<id>/ for this property (written by independent
+    sub-agents, each breaks the property while the 75 tests still pass) is applied to a scratch copy of the current tree and
+    the property's own QUICK check must report a violation there.  Evidence and replays of these inner runs go to a scratch
+    directory (VERIF_OUT); a miss is reported in the evidence and does not change the exit code."""
+    import glob
+    import sys
+    res = []
+    for meta_p in sorted(glob.glob(os.path.join(ROOT, "seeded", "*", "meta.json"))):
+        d = os.path.dirname(meta_p)
+        sid = os.path.basename(d)
+        try:
+            with open(meta_p) as f:
+                meta = json.load(f)
+        except Exception:
+            continue
+        if meta.get("property") != pid or meta.get("superseded_by"):
+            continue
+        patch = os.path.join(d, "patch_current.diff")
+        if not os.path.exists(patch):
+            patch = os.path.join(d, "patch.diff")
+        dst = os.path.join(work, "seeded-" + sid)
+        out = os.path.join(work, "seeded-out-" + sid)
+        os.makedirs(out, exist_ok=True)
+        subprocess.run(["rsync", "-a", "--exclude", "target", "--exclude", ".git", repo.rstrip("/") + "/", dst + "/"], check=True)
+        try:
+            with open(patch) as pf:
+                ap = subprocess.run(["patch", "-p1", "-s", "--no-backup-if-mismatch"], cwd=dst, stdin=pf, capture_output=True, text=True)
+            if ap.returncode != 0:
+                res.append(dict(id=sid, status="not-applicable (the recorded patch does not apply to this tree)"))
+                continue
+            env = dict(os.environ)
+            env.update(VERIF_REPO=dst, VERIF_OUT=out, VERIF_TIER="quick")
+            p = subprocess.run([sys.executable, "-m", "vx.driver", pid, "--tier", "quick"], cwd=ROOT, env=env, capture_output=True, text=True, timeout=3000)
+            lines = [l for l in p.stdout.split("\n") if l.startswith("VIOLATION")]
+            status = "caught" if p.returncode == 1 and lines else ("undecided (exit 2)" if p.returncode == 2 else "MISSED")
+            res.append(dict(id=sid, status=status, violations=len(lines), with_concrete_input=sum(1 for l in lines if "no-failing-input-found" not in l)))
+        except subprocess.TimeoutExpired:
+            res.append(dict(id=sid, status="undecided (timeout)"))
+        finally:
+            shutil.rmtree(dst, ignore_errors=True)
+            shutil.rmtree(out, ignore_errors=True)
+    return dict(total=len(res), caught=sum(1 for r in res if r["status"] == "caught"), results=res)
+
